@@ -28,6 +28,9 @@ CHECKS = {
     "C08": dict(engine="TermMachine+Judge", ref="5/C08",
                 text="TLC enumerates sum-product expressions per semiring (add/mul, logaddexp/add, max/add, min/add, max/mul and min/mul on non-negative data, or/and on booleans): products, sums, reductions over every subset of {i,j,k} and Contraction nodes whose reduced variables are present in all, some or none of the operands, with unit constants. Each expression is built lazily; the normalised, unfolded and optimizer-rebracketed TERMS are serialised and validated by TLC (Judge.tla) against the naive denotation; their eager values, apply_optimizer's value and einsum() are compared with the table TLC emitted; normalize must be idempotent (identical object).",
                 note="trusted as C01/C02; bounds: <=3 leaves, <=2 constructor steps quick (3 thorough, first N programs in breadth-first order), sizes 2-3; einsum equations are those induced by the generated expressions"),
+    "C09": dict(engine="SumProduct", ref="5/C09",
+                text="spec/SumProduct.tla enumerates every plated factor graph within the bounds (factors over all subsets of the variables and plates, canonical order) and every eliminate set, builds the brute-force unrolling as an L1 term (one copy of each eliminated variable per index of the plates it lives in, all factor instances multiplied, copies summed out) and evaluates it exactly; the harness runs sum_product, partial_sum_product in one call and in every split into two calls the spec declares valid, modified_/dynamic_partial_sum_product with empty steps, plated einsum and naive_plated_einsum and compares every value; ValueError is accepted only where eliminated variables have incomparable ordinals.",
+                note="trusted as C01; bounds quick: 2 variables + 2 plates of size 2, <=2 factors, 3 semirings (thorough: <=3 factors, 6 semirings); tractability is approximated by comparability of ordinals (a ValueError on a comparable graph is a violation, a value on any graph must be right); plate scales and free real parameters: see DESIGN.md"),
 }
 
 NOT_YET = "check not built yet in this round (planned, see DESIGN.md section 5)"
@@ -62,6 +65,8 @@ def main():
         "engines": [
             {"name": "TermMachine", "path": "spec/TermMachine.tla", "serves_properties": ["C01", "C03", "C04", "C05", "C06"],
              "kind_free_text": "TLA+ build-and-evaluate machine over the L1 term language (spec/Sem.tla, spec/Values.tla); lenses in spec/lens; replayed by harness/replay.py"},
+            {"name": "SumProduct", "path": "spec/SumProduct.tla", "serves_properties": ["C09"],
+             "kind_free_text": "TLA+ enumeration of plated factor graphs with the unrolled oracle as an L1 term; replayed by harness/modes.py:c09"},
             {"name": "Judge", "path": "spec/Judge.tla", "serves_properties": ["C02", "C08"],
              "kind_free_text": "TLA+ trace specification that consumes recorded events (rule firings, emitted terms) and decides them with the L1 denotation"},
         ],
